@@ -159,6 +159,41 @@ def single_function_rules(chk, rel, pr):
             chk.ok("c-mixed", "%s: %s" % (fn, M.show_atom(root)))
 
 
+SCRATCH_FILES = [CONV, INTERP, SDMX, "mod_cider/frac_lapl.c"]
+
+
+def rule_c_scratch(chk, tree):
+    """every function of the four kernel files that the executor can reduce: a private scratch array is
+    read with the linear layout it was filled with"""
+    tus = cfacts.load_all(tree, SCRATCH_FILES)
+    for rel in SCRATCH_FILES:
+        tu = tus[rel]
+        for f in sorted(tu.funcs):
+            try:
+                ex, st, _ = M.run_function(tu, f)
+            except M.Irreducible:
+                chk.count("functions outside the reducible fragment (scratch layout not examined)")
+                continue
+            if not ex.buffers:
+                continue
+            for buf, verdict, s, q, why in M.scratch_layout(st, ex.buffers):
+                inst = "%s: %s[%s]" % (f, buf, M.show(q))
+                if verdict == "ok":
+                    chk.ok("c-scratch-layout", inst)
+                elif verdict == "undecided":
+                    chk.count("scratch reads with undecided layout")
+                else:
+                    w, (lp, stp, tr, wv) = why
+                    chk.violation("c-scratch-layout", lib_rel(rel), f, s.text, s.line,
+                                  "private array `%s` is filled by `%s` (line %d) with strides %s but read here as "
+                                  "%s[%s]: the loop over `%s` steps by %s over %s elements, which matches none of the "
+                                  "producer's dimensions -- producer and consumer disagree about the layout" % (
+                                      buf, w.text[:80], w.line,
+                                      ", ".join("%s:%s(x%s)" % (l.name, M.show(a), M.show(b)) for l, a, b in wv),
+                                      buf, M.show(q), lp.name, M.show(stp), M.show(tr)),
+                                  instance="%s: %s" % (f, buf))
+
+
 def rule_c_flagged(chk, tus):
     for rel, f, flag, swap, opaque in C_FLAGGED:
         tu = tus[rel]
@@ -688,6 +723,67 @@ def rule_py_select(chk, tree):
 # ----------------------------------------------------------------------------
 # py-branch: get_transformed_interpolation_terms
 # ----------------------------------------------------------------------------
+OPERAND = "p_qu"
+
+
+def _has_operand(e):
+    return any(isinstance(x, ast.Name) and x.id == OPERAND for x in ast.walk(e))
+
+
+def ops_of(e):
+    """operators applied to the operand by an expression, innermost first"""
+    if isinstance(e, ast.Name) and e.id == OPERAND:
+        return []
+    if isinstance(e, ast.Subscript) and isinstance(e.value, ast.Name) and e.value.id == OPERAND \
+            and ast.unparse(e.slice) in (":", "..."):
+        return []
+    if isinstance(e, ast.BinOp) and isinstance(e.op, ast.Mult):
+        l, r = _has_operand(e.left), _has_operand(e.right)
+        if l != r:
+            inner, other = (e.left, e.right) if l else (e.right, e.left)
+            return ops_of(inner) + [("scale", ast.unparse(other))]
+    if isinstance(e, ast.BinOp) and isinstance(e.op, ast.MatMult) and _has_operand(e.right) and not _has_operand(e.left):
+        return ops_of(e.right) + [("dot", ast.unparse(e.left))]
+    if isinstance(e, ast.Call):
+        nm = M._callee_name(e)
+        if nm == "_stable_solve" and len(e.args) == 2 and not _has_operand(e.args[0]):
+            return ops_of(e.args[1]) + [("solve", ast.unparse(e.args[0]))]
+        if nm == "dot" and isinstance(e.func, ast.Attribute) and len(e.args) == 1 and not _has_operand(e.func.value):
+            return ops_of(e.args[0]) + [("dot", ast.unparse(e.func.value))]
+        if nm == "dot" and len(e.args) == 2 and not _has_operand(e.args[0]):
+            return ops_of(e.args[1]) + [("dot", ast.unparse(e.args[0]))]
+        if nm in ("ascontiguousarray", "asarray", "copy") and e.args and _has_operand(e.args[0]):
+            return ops_of(e.args[0])
+    raise ValueError("unrecognised expression applied to %s: %s" % (OPERAND, ast.unparse(e)))
+
+
+def operator_sequence(blk, direction, polarity):
+    seq = []
+    for st in blk:
+        if isinstance(st, ast.If) and polarity(st.test) is not None:
+            live = st.body if polarity(st.test) == direction else st.orelse
+            seq += operator_sequence(live, direction, polarity)
+            continue
+        if isinstance(st, ast.Assign) and len(st.targets) == 1:
+            t = st.targets[0]
+            tn = t.value if isinstance(t, ast.Subscript) else t
+            if isinstance(tn, ast.Name) and tn.id == OPERAND:
+                if not _has_operand(st.value):
+                    raise ValueError("%s is re-bound to something else: %s" % (OPERAND, ast.unparse(st)))
+                seq += ops_of(st.value)
+            continue
+        if isinstance(st, ast.AugAssign):
+            t = st.target
+            tn = t.value if isinstance(t, ast.Subscript) else t
+            if isinstance(tn, ast.Name) and tn.id == OPERAND:
+                if isinstance(st.op, ast.Mult) and not _has_operand(st.value):
+                    seq.append(("scale", ast.unparse(st.value)))
+                else:
+                    raise ValueError("unrecognised in-place update of %s: %s" % (OPERAND, ast.unparse(st)))
+            continue
+    return seq
+
+
 def rule_py_branch(chk, tree):
     qn = "NLDFGaussianPlan._get_transformed_interpolation_terms"
     fn = M.py_find_def(tree.py(PL), qn)
@@ -719,45 +815,58 @@ def rule_py_branch(chk, tree):
     if n_sel != 1:
         raise core.AnalysisError("%s: expected one `if fwd: transform = ... else: transform = ....T` (found %d)" % (
             qn, n_sel))
-    # (b) every block applying `transform`
-    n_blocks = 0
+    # (b) every block applying `transform`: operator sequence per direction
+    seqs = {}     # id(block) -> {True: [...], False: [...]}
+    blocks = []
     for n in ast.walk(fn):
         for blk in (getattr(n, "body", None), getattr(n, "orelse", None)):
-            if not isinstance(blk, list):
+            if not isinstance(blk, list) or isinstance(n, ast.If) and polarity(n.test) is not None:
                 continue
-            app = [i for i, st in enumerate(blk) if not isinstance(st, (ast.If, ast.For, ast.While)) and any(
+            direct = [st for st in blk if not isinstance(st, (ast.For, ast.While)) and (
+                not isinstance(st, ast.If) or polarity(st.test) is not None) and any(
                 isinstance(x, ast.Name) and x.id == "transform" and isinstance(x.ctx, ast.Load) for x in ast.walk(st))]
-            if not app:
+            if not direct or blk is fn.body:
                 continue
-            if len(app) != 1:
-                raise core.AnalysisError("%s: `transform` applied %d times in one block" % (qn, len(app)))
-            n_blocks += 1
-            k = app[0]
-            before = [(polarity(st.test), st) for st in blk[:k] if isinstance(st, ast.If) and polarity(st.test) is not None]
-            after = [(polarity(st.test), st) for st in blk[k + 1:] if isinstance(st, ast.If) and polarity(st.test) is not None]
-            inst = "block applying `%s`" % ast.unparse(blk[k])
-            probs = []
-            for pol, st in before + after:
-                if st.orelse or len(st.body) != 1:
-                    raise core.AnalysisError("%s: direction-guarded statement is not a single statement" % qn)
-            bf = [ast.unparse(st.body[0]) for pol, st in before if pol is True]
-            bn = [ast.unparse(st.body[0]) for pol, st in before if pol is False]
-            af = [ast.unparse(st.body[0]) for pol, st in after if pol is True]
-            an = [ast.unparse(st.body[0]) for pol, st in after if pol is False]
-            if bf != list(reversed(an)):
-                probs.append("statements run before the solve when fwd %s are not the ones run after it when not fwd %s"
-                             % (bf, an))
-            if bn != list(reversed(af)):
-                probs.append("statements run before the solve when not fwd %s are not the ones run after it when fwd %s"
-                             % (bn, af))
-            if probs:
-                chk.violation("py-branch", PL, qn, ast.unparse(blk[k]), blk[k].lineno,
-                              "fwd / not fwd are not mirror images around `%s`: %s" % (
-                                  ast.unparse(blk[k]), "; ".join(probs)), instance=inst)
+            blocks.append((n, blk))
+    if len(blocks) < 2:
+        raise core.AnalysisError("%s: fewer than two blocks apply `transform` (found %d)" % (qn, len(blocks)))
+    for n, blk in blocks:
+        res = {}
+        for d in (True, False):
+            try:
+                res[d] = operator_sequence(blk, d, polarity)
+            except ValueError as e:
+                raise core.AnalysisError("%s: %s" % (qn, e))
+        seqs[id(blk)] = res
+        first = next(st for st in blk if any(isinstance(x, ast.Name) and x.id == "transform" for x in ast.walk(st)))
+        inst = "block applying `%s`" % ast.unparse(first).split("\n")[0]
+        fwd_seq, bwd_seq = res[True], res[False]
+        if fwd_seq != list(reversed(bwd_seq)):
+            chk.violation("py-branch", PL, qn, ast.unparse(first).split("\n")[0], first.lineno,
+                          "fwd / not fwd are not mirror images: with fwd the operand goes through %s, with not fwd "
+                          "through %s; the backward sequence must be the forward one in reverse order (the matrix "
+                          "itself is transposed by the `transform` selection)" % (
+                              " then ".join("%s(%s)" % o for o in fwd_seq) or "nothing",
+                              " then ".join("%s(%s)" % o for o in bwd_seq) or "nothing"), instance=inst)
+        else:
+            chk.ok("py-branch", inst, nontrivial=len(fwd_seq) > 1,
+                   detail={"fwd": ["%s(%s)" % o for o in fwd_seq], "not fwd": ["%s(%s)" % o for o in bwd_seq]})
+    # in-place and out-of-place siblings (the two branches of one `if`) apply the same operators
+    for n in ast.walk(fn):
+        if isinstance(n, ast.If) and polarity(n.test) is None and id(n.body) in seqs and id(n.orelse) in seqs:
+            inst = "branches of `if %s` apply the same operators" % ast.unparse(n.test)
+            a_, b_ = seqs[id(n.body)], seqs[id(n.orelse)]
+            bad = [d for d in (True, False) if a_[d] != b_[d]]
+            if bad:
+                d = bad[0]
+                chk.violation("py-branch", PL, qn, "if %s: ... else: ..." % ast.unparse(n.test), n.lineno,
+                              "for %s the `%s` branch applies %s but the other branch applies %s: the two code paths "
+                              "must compute the same operator" % (
+                                  "fwd" if d else "not fwd", ast.unparse(n.test),
+                                  " then ".join("%s(%s)" % o for o in a_[d]) or "nothing",
+                                  " then ".join("%s(%s)" % o for o in b_[d]) or "nothing"), instance=inst)
             else:
-                chk.ok("py-branch", inst, nontrivial=bool(bf or bn))
-    if n_blocks < 2:
-        raise core.AnalysisError("%s: fewer than two blocks apply `transform` (found %d)" % (qn, n_blocks))
+                chk.ok("py-branch", inst)
     # the Spline plan's transform must stay the identity in both directions
     fs = M.py_find_def(tree.py(PL), "NLDFSplinePlan._get_transformed_interpolation_terms")
     if fs is None:
@@ -779,6 +888,9 @@ def _analyse_own(chk):
     chk.count("C translation units", len(tus))
     chk.guard(rule_c_pairs, tus)
     chk.guard(rule_c_flagged, tus)
+    chk.rule("c-scratch-layout", "a private scratch array is read with the linear layout it was written with")
+    chk.guard(rule_c_scratch, tree)
+    chk.floor("c-scratch-layout", 7, "scratch reads in the reducible functions of the four kernel files")
     chk.rule("py-reverse", "Python backward composition = forward one reversed, flags negated, same static args")
     rule_py_pairs(chk, tree)
     chk.rule("py-select", "direction flag selects a c-mirror-verified pair with one shared argument list")
@@ -791,7 +903,7 @@ def _analyse_own(chk):
     chk.floor("py-zeroinit", 8, "accumulate-only outputs in the traced compositions (6 local buffers, rest caller-provided)")
     chk.floor("py-reverse", 16, "primitive calls in the 8 forward compositions + 3 matrix products")
     chk.floor("py-select", 6, "10 flag-selected libcider pairs + 2 forwarded flags")
-    chk.floor("py-branch", 3, "transform selection + 3 blocks applying it")
+    chk.floor("py-branch", 4, "transform selection + 3 blocks applying it")
     chk.floor("c-mirror", 13, "13 designated forward/backward C pairs, all comparable today")
     chk.floor("c-dirflag", 2, "multiply_atc_integrals and multiply_atc_integrals_vk")
     chk.floor("c-overwrite", 3, "kill+add stores and BETA=0 DGEMMs into parameter arrays")
@@ -937,6 +1049,20 @@ def mutants(tree):
                "c0 = np.empty((mol.nao_nr(), ngrids))", expect="py-zeroinit"),
         Mutant("zeroing of the forward output only when a flag is set", NG, "        conv_vq[:] = 0.0\n",
                "        if grad_mode:\n            conv_vq[:] = 0.0\n", expect="py-zeroinit"),
+        # ---- round 4: operator order of the interpolation transform, scratch layouts
+        Mutant("copy path scales before the solve when not fwd", PL,
+               "                p_qu = _stable_solve(transform, p_qu)\n                if not fwd:\n"
+               "                    p_qu = self.alpha_norms[:, None] * p_qu",
+               "                if not fwd:\n                    p_qu = self.alpha_norms[:, None] * p_qu\n"
+               "                p_qu = _stable_solve(transform, p_qu)", expect="py-branch"),
+        Mutant("in-place path drops the forward scaling", PL,
+               "                if fwd:\n                    p_qu[:] *= self.alpha_norms[:, None]\n", "", expect="py-branch"),
+        Mutant("scratch table of SDMXcontract_rsq1 filled transposed", S,
+               "conv_coeff[i * nprim + j] = conv_factor[j] * coeff[i * nprim + j];",
+               "conv_coeff[j * nctr + i] = conv_factor[j] * coeff[i * nprim + j];", expect="c-scratch-layout"),
+        Mutant("scratch table of SDMXcontract_rsq0 read transposed", S,
+               "ectr[k * BLKSIZE + i] += eprim * conv_coeff[k * nprim + j];",
+               "ectr[k * BLKSIZE + i] += eprim * conv_coeff[j * nctr + k];", expect="c-scratch-layout"),
         # ---- Python compositions
         Mutant("swap call order in spline2conv", LI,
                "            self._orb2spline_(\n                self.l1atco,\n                f_arlpq,\n                f1_uq,\n"
